@@ -362,6 +362,7 @@ impl Operator<u64> for Doubler {
 
 fn main() {
     util::silence_panics();
+    util::start_hang_monitor("vh_erased");
     let args: Vec<String> = std::env::args().skip(1).collect();
     std::process::exit(trace(&args));
 }
